@@ -14,6 +14,7 @@ type val = *int64
 
 type interp struct {
 	scopes []map[int]*val // innermost last
+	hscope [][]*Stmt      // handlers declared in each scope (parallel to scopes)
 	params map[int]*val
 	log    []val
 	steps  int
@@ -27,6 +28,7 @@ const (
 	sIterate
 	sError
 	sFuel
+	sExit // an EXIT handler ran: leave the block whose scope has index `label` in in.scopes
 )
 
 type sig struct {
@@ -130,7 +132,37 @@ func (in *interp) seq(ss []*Stmt) sig {
 	return sig{}
 }
 
+// stmt runs s; a condition it raises is given to the innermost enclosing SQLEXCEPTION handler: the
+// handler's SET runs in the scope of the block that declared it, then CONTINUE completes s and EXIT
+// completes the declaring block. (An error that found no handler finds none further out either: the
+// enclosing statements see a subset of the scopes.)
 func (in *interp) stmt(s *Stmt) sig {
+	r := in.stmt0(s)
+	if r.k != sError {
+		return r
+	}
+	for d := len(in.hscope) - 1; d >= 0; d-- {
+		for _, h := range in.hscope[d] {
+			if h.NotFound {
+				continue
+			}
+			saved, savedH := in.scopes, in.hscope
+			in.scopes, in.hscope = in.scopes[:d+1], in.hscope[:d+1]
+			hr := in.stmt0(&Stmt{Kind: "set", X: h.X, E: h.E})
+			in.scopes, in.hscope = saved, savedH
+			if hr.k != sNormal {
+				return hr
+			}
+			if h.Exit {
+				return sig{k: sExit, label: d}
+			}
+			return sig{}
+		}
+	}
+	return r
+}
+
+func (in *interp) stmt0(s *Stmt) sig {
 	in.steps++
 	if in.steps > 100000 {
 		return sig{k: sFuel}
@@ -139,12 +171,19 @@ func (in *interp) stmt(s *Stmt) sig {
 	switch s.Kind {
 	case "block":
 		in.scopes = append(in.scopes, map[int]*val{})
+		in.hscope = append(in.hscope, nil)
 		r := in.seq(s.Body)
 		in.scopes = in.scopes[:len(in.scopes)-1]
+		in.hscope = in.hscope[:len(in.hscope)-1]
 		if r.k == sLeave && r.label == s.Label {
 			return sig{}
 		}
+		if r.k == sExit && r.label == len(in.scopes) {
+			return sig{}
+		}
 		return r
+	case "handler":
+		in.hscope[len(in.hscope)-1] = append(in.hscope[len(in.hscope)-1], s)
 	case "decl":
 		var v val
 		if s.Dflt != nil {
@@ -262,7 +301,7 @@ func interpretCase(c *Case) (string, bool) {
 			return "", false
 		case sError:
 			class = fmt.Sprintf("err:%d", r.code)
-		case sLeave, sIterate:
+		case sLeave, sIterate, sExit:
 			class = "crash"
 		default:
 			for i, p := range c.Params {
